@@ -15,6 +15,7 @@ mod c10;
 mod c12;
 mod c13;
 mod c14;
+mod c15;
 mod c16;
 mod c17;
 mod c18;
@@ -26,7 +27,7 @@ use std::time::Instant;
 use util::*;
 
 fn props() -> Vec<PropDef> {
-    vec![c02::DEF, c03::DEF, c04::DEF, c05::DEF, c06::DEF, c07::DEF, c08::DEF, c09::DEF, c10::DEF, c12::DEF, c13::DEF, c14::DEF, c16::DEF, c17::DEF, c18::DEF, c19::DEF, c20::DEF]
+    vec![c02::DEF, c03::DEF, c04::DEF, c05::DEF, c06::DEF, c07::DEF, c08::DEF, c09::DEF, c10::DEF, c12::DEF, c13::DEF, c14::DEF, c15::DEF, c16::DEF, c17::DEF, c18::DEF, c19::DEF, c20::DEF]
 }
 
 fn arg(args: &[String], name: &str) -> Option<String> {
